@@ -502,6 +502,7 @@ type Contract struct {
 	File     string
 	Line     int
 	Asserts  []Clause
+	Footprint []*Node // objects whose fields (of the maps in Modifies) may change; all others keep theirs
 	Abstract []*Node // nonlinear terms replaced by fresh constants in a first proof attempt
 	NoVerify bool // contract is only used at call sites (body outside subset); listed as assumption
 	Lets     []LetSpec
@@ -686,6 +687,30 @@ func parseFuncHeader(s string, pkgName, pkgPath string) (*Contract, error) {
 	return c, nil
 }
 
+// splitTop splits at top-level commas.
+func splitTop(s string) []string {
+	var out []string
+	depth := 0
+	start := 0
+	for i, c := range s {
+		switch c {
+		case '(', '[':
+			depth++
+		case ')', ']':
+			depth--
+		case ',':
+			if depth == 0 {
+				out = append(out, strings.TrimSpace(s[start:i]))
+				start = i + 1
+			}
+		}
+	}
+	if strings.TrimSpace(s[start:]) != "" {
+		out = append(out, strings.TrimSpace(s[start:]))
+	}
+	return out
+}
+
 func splitNames(s string) []string {
 	var out []string
 	for _, p := range strings.Split(s, ",") {
@@ -799,6 +824,17 @@ func (cs *ContractSet) LoadContractFile(path, pkgPath string) error {
 				if m != "" && m != "nothing" {
 					cur.Modifies = append(cur.Modifies, m)
 				}
+			}
+		case "footprint":
+			if cur == nil {
+				return fail(fmt.Errorf("footprint outside func"))
+			}
+			for _, part := range splitTop(rest) {
+				e, err := ParseExpr(part)
+				if err != nil {
+					return fail(err)
+				}
+				cur.Footprint = append(cur.Footprint, e)
 			}
 		case "abstract":
 			if cur == nil {
